@@ -202,9 +202,10 @@ def h_get_log_w(I, fi):
     s, T, it, N = sampler_obj(I, fi)
     P.assume(z3.And(P.z(T) >= 1, P.z(it) >= 0, P.z(it) < P.z(T)))
     p = PModel("p")
-    r = I.call_function(fi, [s, p], {}, force_inline=True)
-    last = P.feasible(P.z(it) == P.z(T) - 1) and not P.feasible(P.z(it) < P.z(T) - 1)
+    last = P.decide(2) == 1
+    P.assume(P.z(it) == P.z(T) - 1 if last else P.z(it) < P.z(T) - 1)
     dsl.cover(I, "last" if last else "not-last")
+    r = I.call_function(fi, [s, p], {}, force_inline=True)
     want = p.a_log_w(I) - p.a_log_p(I) + p.a_log_p_one(I) if last else p.a_log_w(I)
     P.check("L7.final-correction[%s]" % ("last" if last else "before-last"), P.z(I.to_num(r)) == P.z(want),
             "log_p_one - log_p is added exactly at iteration == num_iterations - 1", kind="post")
@@ -337,12 +338,13 @@ def h_update_swarm(I, fi):
     P = I.P
     s, T, it, N, kern = csmc_obj(I, I.repo)
     P.assume(z3.And(P.z(it) >= 1, P.z(it) < P.z(T)), "called from sample(): 1 <= iteration < num_iterations")
+    last = P.decide(2) == 1
+    P.assume(P.z(it) == P.z(T) - 1 if last else P.z(it) < P.z(T) - 1)
+    dsl.cover(I, "update-last" if last else "update-not-last")
     I.call_function(fi, [s], {}, force_inline=True)
     new = I.getattr(s, "swarm")
     if not isinstance(new, Recorder):
         raise Unsupported("_update_swarm did not install a freshly built swarm")
-    last = not P.feasible(P.z(it) < P.z(T) - 1)
-    dsl.cover(I, "update-last" if last else "update-not-last")
     b = alg.bound_index()
     Z = alg.bigsum("uw(old)", N, alg.sexp(alg.raw_app("uw_old", b)))
 
@@ -374,10 +376,11 @@ def h_init_swarm(I, fi):
     s, T, it, N, kern = csmc_obj(I, I.repo)
     s.fields["iteration"] = 0
     s.fields["swarm"] = None
+    last = P.decide(2) == 1
+    P.assume(P.z(T) == 1 if last else P.z(T) > 1)
+    dsl.cover(I, "init-T1" if last else "init-T>1")
     I.call_function(fi, [s], {}, force_inline=True)
     new = I.getattr(s, "swarm")
-    last = not P.feasible(P.z(T) > 1)
-    dsl.cover(I, "init-T1" if last else "init-T>1")
 
     def corr(p):
         return (p.a_log_w(I) - p.a_log_p(I) + p.a_log_p_one(I)) if last else p.a_log_w(I)
